@@ -3,6 +3,7 @@ package main
 import (
 	"fmt"
 	"os"
+	"os/exec"
 	"path/filepath"
 	"runtime/debug"
 	"sort"
@@ -51,6 +52,7 @@ type opts struct {
 	only   string
 	verb   bool
 	edits  []string
+	patch  []string
 	noEmit bool
 }
 
@@ -80,6 +82,8 @@ func parseOpts(args []string) (pos []string, o opts) {
 			o.verb = true
 		case "--edit":
 			o.edits = append(o.edits, next())
+		case "--patch":
+			o.patch = append(o.patch, next())
 		case "--no-emit":
 			o.noEmit = true
 		default:
@@ -113,6 +117,62 @@ func buildOverlay(repo string, edits []string) (map[string][]byte, error) {
 			return nil, fmt.Errorf("variant does not apply: %q occurs %d times in %s", parts[1], n, parts[0])
 		}
 		ov[fn] = []byte(strings.Replace(string(cur), parts[1], parts[2], 1))
+	}
+	return ov, nil
+}
+
+// patchOverlay applies a unified diff (git format, -p1) to a private copy of the files it names
+// and adds the results to the overlay; /repo itself is not touched.
+func patchOverlay(repo string, patches []string, ov map[string][]byte) (map[string][]byte, error) {
+	if len(patches) == 0 {
+		return ov, nil
+	}
+	if ov == nil {
+		ov = map[string][]byte{}
+	}
+	for _, pf := range patches {
+		if !filepath.IsAbs(pf) {
+			pf = filepath.Join(verifDir(), pf)
+		}
+		b, err := os.ReadFile(pf)
+		if err != nil {
+			return nil, err
+		}
+		var rels []string
+		for _, l := range strings.Split(string(b), "\n") {
+			if strings.HasPrefix(l, "+++ b/") {
+				rels = append(rels, strings.TrimSpace(strings.TrimPrefix(l, "+++ b/")))
+			}
+		}
+		tmp, err := os.MkdirTemp("", "rvet-patch-")
+		if err != nil {
+			return nil, err
+		}
+		defer os.RemoveAll(tmp)
+		for _, rel := range rels {
+			src := filepath.Join(repo, rel)
+			cur, ok := ov[src]
+			if !ok {
+				cur, _ = os.ReadFile(src) // a file the patch creates does not exist yet
+			}
+			_ = os.MkdirAll(filepath.Dir(filepath.Join(tmp, rel)), 0o755)
+			if cur != nil {
+				if err := os.WriteFile(filepath.Join(tmp, rel), cur, 0o644); err != nil {
+					return nil, err
+				}
+			}
+		}
+		cmd := exec.Command("patch", "-p1", "-s", "-F0", "-d", tmp, "-i", pf)
+		if out, err := cmd.CombinedOutput(); err != nil {
+			return nil, fmt.Errorf("variant does not apply: %s: %s", pf, strings.TrimSpace(string(out)))
+		}
+		for _, rel := range rels {
+			nb, err := os.ReadFile(filepath.Join(tmp, rel))
+			if err != nil {
+				return nil, err
+			}
+			ov[filepath.Join(repo, rel)] = nb
+		}
 	}
 	return ov, nil
 }
@@ -159,6 +219,9 @@ func runCheck(id string, o opts) (code int) {
 	}
 	before := gitStatus(o.repo)
 	ov, err := buildOverlay(o.repo, o.edits)
+	if err == nil {
+		ov, err = patchOverlay(o.repo, o.patch, ov)
+	}
 	if err != nil {
 		fmt.Fprintln(os.Stderr, err)
 		return 3
@@ -177,7 +240,7 @@ func runCheck(id string, o opts) (code int) {
 		}()
 		pd.run(w, r)
 	}()
-	if o.tier == "thorough" && len(o.edits) == 0 && !o.noEmit {
+	if o.tier == "thorough" && len(o.edits) == 0 && len(o.patch) == 0 && !o.noEmit {
 		thoroughSelftest(id, o.repo, r)
 	}
 	if o.only != "" {
